@@ -568,10 +568,11 @@ def judge_arcs(inp, obs, lr):
 # ------------------------------------------------------------------------------------------------
 # S3: the contracts themselves on random well-conditioned float inputs
 # ------------------------------------------------------------------------------------------------
-def fform(rng, p, q):
+def fform(rng, p, q, lo=0.3):
     n = p + q
     Qm, _ = np.linalg.qr(np.array([[rng.gauss(0, 1) for _ in range(n)] for _ in range(n)]))
-    d = [rng.uniform(0.3, 3.0) for _ in range(p)] + [-rng.uniform(0.3, 3.0) for _ in range(q)]
+    mag = lambda: math.exp(rng.uniform(math.log(lo), math.log(3.0)))
+    d = [mag() for _ in range(p)] + [-mag() for _ in range(q)]
     rng.shuffle(d)
     return Qm.T @ np.diag(d) @ Qm, d
 
@@ -605,18 +606,22 @@ def gen_gso(rng, n):
         if not ok:
             continue
         made += 1
-        yield {"sig": [p, q], "B": B.tolist(), "k": k, "shape": shape, "rows": rows.tolist(), "fn": rng.choice(["ortho", "find", "find"]),
-               "force_oriented": rng.random() < 0.5}
+        fn = rng.choice(["ortho", "find", "find"])
+        yield {"sig": [p, q], "B": B.tolist(), "k": k, "shape": shape, "rows": rows.tolist(), "fn": fn,
+               "force_oriented": rng.random() < 0.5, "oned": k == 1 and not shape and rng.random() < 0.6}
 
 
 def run_gso(inp):
     B = np.array(inp["B"])
     n = B.shape[0]
     rows = np.array(inp["rows"]).reshape(tuple(inp["shape"]) + (inp["k"], n))
+    arg = rows[0].copy() if inp.get("oned") else rows.copy()      # a single vector may be passed as a 1-d array
     if inp["fn"] == "ortho":
-        out = utils.indefinite_orthogonalize(B, rows.copy())
+        out = utils.indefinite_orthogonalize(B, arg)
+        if inp.get("oned"):
+            out = out[None, :]
     else:
-        out = utils.find_isometry(B, rows.copy(), inp["force_oriented"])
+        out = utils.find_isometry(B, arg, inp["force_oriented"])
     U = L.units(out, 2)
     R = L.units(rows, 2)
     G = U @ B @ U.swapaxes(-1, -2)
@@ -661,7 +666,7 @@ def gen_diago(rng, n):
         forms, sigs = [], []
         for _ in range(cnt(shape)):
             q = rng.randint(0, nn)
-            B, d = fform(rng, nn - q, q)
+            B, d = fform(rng, nn - q, q, lo=3e-3)      # eigenvalues bounded away from 0 with cond ≤ 1e3
             forms.append(B.tolist())
             sigs.append([1 if x > 0 else -1 for x in d])
         yield {"n": nn, "shape": shape, "forms": forms, "sigs": sigs, "mode": rng.choice(["signed", "minkowski", "minkowski"]),
@@ -713,18 +718,28 @@ def gen_kero(rng, n):
             else:
                 A = np.zeros((m, nn))
             As.append(A.tolist())
-        yield {"m": m, "n": nn, "rank": rk, "shape": shape, "A": As, "via": rng.choice(["kernel", "kernel", "oc_form", "oc_none"])}
+        via = rng.choice(["kernel", "kernel", "oc_form", "oc_none", "oc_real_none", "oc_real_form"])
+        inp = {"m": m, "n": nn, "rank": rk, "shape": shape, "A": As, "via": via}
+        if via.startswith("oc_real"):
+            # a genuine (positive definite, so that normalisation is always possible) form: complements are form-orthogonal
+            G = np.array([[rng.gauss(0, 1) for _ in range(nn)] for _ in range(nn)])
+            inp["form"] = (G @ G.T + 0.5 * np.eye(nn)).tolist()
+        yield inp
 
 
 def run_kero(inp):
     A = np.array(inp["A"]).reshape(tuple(inp["shape"]) + (inp["m"], inp["n"]))
+    Fm = np.array(inp["form"]) if "form" in inp else np.eye(inp["n"])
     if inp["via"] == "kernel":
         rows = np.asarray(utils.kernel(A.copy())).swapaxes(-1, -2)
+    elif "form" in inp:
+        rows = np.asarray(utils.orthogonal_complement(A.copy(), Fm, normalize="form" if inp["via"] == "oc_real_form" else None))
     else:
         rows = np.asarray(utils.orthogonal_complement(A.copy(), normalize="form" if inp["via"] == "oc_form" else None))
     U = L.units(rows, 2)
-    ann = float(np.max(np.abs(L.units(A, 2) @ U.swapaxes(-1, -2)))) if U.size else 0.0
-    orth = float(np.max(np.abs(U @ U.swapaxes(-1, -2) - np.eye(U.shape[-2])))) if U.size else 0.0
+    ann = float(np.max(np.abs(L.units(A, 2) @ Fm @ U.swapaxes(-1, -2)))) if U.size else 0.0      # form-orthogonal to the given vectors
+    Gm = U @ (Fm if inp["via"] == "oc_real_form" else np.eye(inp["n"])) @ U.swapaxes(-1, -2)
+    orth = float(np.max(np.abs(Gm - np.eye(U.shape[-2])))) if U.size else 0.0
     return {"shape": list(rows.shape), "ann": ann, "orth": orth}
 
 
@@ -852,6 +867,74 @@ def judge_cang(inp, obs, lr):
     return None
 
 
+# ---- numerical.svd_kernel options: assume_full_rank, matching_rank=False (+ with_dimensions / with_loc) ----------------
+def gen_svdopt(rng, n):
+    for _ in range(n):
+        m, nn = rng.randint(1, 4), rng.randint(1, 5)
+        b = rng.randint(1, 4)
+        mode = rng.choice(["nomatch", "nomatch", "full"])
+        As, ranks = [], []
+        for _ in range(b):
+            rk = min(m, nn) if mode == "full" else rng.randint(0, min(m, nn))
+            if rk:
+                ql, _ = np.linalg.qr(np.array([[rng.gauss(0, 1) for _ in range(rk)] for _ in range(m)]).reshape(m, rk))
+                qr_, _ = np.linalg.qr(np.array([[rng.gauss(0, 1) for _ in range(rk)] for _ in range(nn)]).reshape(nn, rk))
+                A = ql @ np.diag([rng.uniform(0.5, 3) for _ in range(rk)]) @ qr_.T
+            else:
+                A = np.zeros((m, nn))
+            As.append(A.tolist())
+            ranks.append(rk)
+        yield {"m": m, "n": nn, "A": As, "ranks": ranks, "mode": mode, "with_dimensions": rng.random() < 0.5, "with_loc": rng.random() < 0.5}
+
+
+def run_svdopt(inp):
+    A = np.array(inp["A"]).reshape(len(inp["A"]), inp["m"], inp["n"])
+    if inp["mode"] == "full":
+        N = numerical.svd_kernel(A.copy(), assume_full_rank=True)
+        groups = [(inp["n"] - min(inp["m"], inp["n"]), N, np.ones(len(A), dtype=bool))]
+    else:
+        res = numerical.svd_kernel(A.copy(), matching_rank=False, with_dimensions=inp["with_dimensions"], with_loc=inp["with_loc"])
+        kd = np.array([inp["n"] - r for r in inp["ranks"]])
+        dims_true = sorted(set(kd.tolist()))
+        if inp["with_dimensions"] and inp["with_loc"]:
+            dims, bases, locs = res
+        elif inp["with_dimensions"]:
+            dims, bases = res
+            locs = [kd == d for d in dims]
+        elif inp["with_loc"]:
+            bases, locs = res
+            dims = dims_true
+        else:
+            bases, dims, locs = res, dims_true, [kd == d for d in dims_true]
+        if list(np.asarray(dims).tolist()) != dims_true or len(bases) != len(dims_true):
+            return {"dims": np.asarray(dims).tolist(), "dims_true": dims_true, "nb": len(bases)}
+        groups = [(d, Bm, np.asarray(l)) for d, Bm, l in zip(dims_true, bases, locs)]
+    worst_ann = worst_orth = 0.0
+    shapes = []
+    for d, Bm, loc in groups:
+        Bm = np.asarray(Bm)
+        shapes.append([list(Bm.shape), [int(loc.sum()), inp["n"], int(d)]])
+        if Bm.size and list(Bm.shape) == [int(loc.sum()), inp["n"], int(d)]:
+            worst_ann = max(worst_ann, float(np.max(np.abs(A[loc] @ Bm))))
+            worst_orth = max(worst_orth, float(np.max(np.abs(Bm.swapaxes(-1, -2) @ Bm - np.eye(int(d))))))
+    return {"shapes": shapes, "ann": worst_ann, "orth": worst_orth}
+
+
+def judge_svdopt(inp, obs, lr):
+    tags = {"fn": "svd_kernel", "mode": inp["mode"], "trivial_kernel": any(r == inp["n"] for r in inp["ranks"]),
+            "mixed_ranks": len(set(inp["ranks"])) > 1}
+    if "exc" in obs:
+        return {"expected": "kernel bases", "observed": obs, "tags": dict(tags, exc=obs["exc"])}
+    if "dims" in obs:
+        return {"expected": {"kernel dimensions": obs["dims_true"]}, "observed": obs, "tags": dict(tags, dimension=True)}
+    for got, want in obs["shapes"]:
+        if got != want:
+            return {"expected": {"shape": want}, "observed": {"shape": got}, "tags": dict(tags, dimension=True)}
+    if not (obs["ann"] <= 1e-8 and obs["orth"] <= 1e-8):
+        return {"expected": "annihilated and orthonormal (1e-8)", "observed": obs, "tags": dict(tags, residual=True)}
+    return None
+
+
 CLAUSES = [
     Clause("gs_corr", "corr", gen_gs, run_gs, judge_gs, lean=lean_gs, site="utils.indefinite_orthogonalize",
            budget={"quick": 240, "thorough": 4000},
@@ -886,6 +969,9 @@ CLAUSES = [
     Clause("kernel_oracle", "oracle", gen_kero, run_kero, judge_kero, site="utils.kernel / orthogonal_complement",
            budget={"quick": 500, "thorough": 8000},
            what="float matrices of prescribed rank: annihilated, orthonormal, n − rank columns; orthogonal_complement with and without normalisation"),
+    Clause("svd_options_oracle", "oracle", gen_svdopt, run_svdopt, judge_svdopt, site="numerical.svd_kernel",
+           budget={"quick": 200, "thorough": 5000},
+           what="svd_kernel(assume_full_rank=True) and svd_kernel(matching_rank=False, with_dimensions, with_loc) on batches of mixed rank incl. trivial kernels: per-rank bases annihilated, orthonormal, n − rank columns"),
     Clause("sphere_oracle", "oracle", gen_spho, run_spho, judge_spho, site="utils.sphere_through / circle_through",
            budget={"quick": 400, "thorough": 6000},
            what="float points in general position: every point at distance radius from the centre"),
